@@ -104,7 +104,7 @@ func checkC12(w *World, c *Check, tier string) {
 	}
 	sort.Strings(unknown)
 	if len(unknown) > 0 {
-		c.Assumptions = append(c.Assumptions, "dependencies without a reviewed summary are assumed not to write through their arguments: "+strings.Join(unknown, ", "))
+		c.Assumptions = append(c.Assumptions, "dependencies without a reviewed summary are assumed to write through every pointer-like argument and to return memory aliasing them: "+strings.Join(unknown, ", "))
 	}
 	// positive controls: functions that certainly write through a parameter must be summarised so
 	ctl := func(f *ssa.Function, idx int, what string) {
